@@ -135,6 +135,15 @@ func init() {
 		fr.i.budget = fr.i.steps + asInt64(args[0])
 		return nil
 	}
+	symAPI["Contains"] = func(fr *frame, args []value) value {
+		i := fr.i
+		h, n := strBytes(args[0]), strBytes(args[1])
+		acc := i.tt.Bool(false)
+		for k := 0; k+len(n) <= len(h); k++ {
+			acc = i.tt.Or(acc, i.term(i.strEq(&SStr{h[k : k+len(n)]}, &SStr{n})))
+		}
+		return i.mkBool(acc)
+	}
 	symAPI["Thorough"] = func(fr *frame, args []value) value { return fr.i.run.cfg.Thorough }
 	symAPI["Symbolic"] = func(fr *frame, args []value) value { return true }
 	symAPI["MapOrder"] = func(fr *frame, args []value) value {
